@@ -94,8 +94,9 @@ def _pure_stdlib():
     for n in dir(operator):
         if not n.startswith("_"):
             t[("operator", n)] = getattr(operator, n)
-    for n in ("floor", "ceil", "trunc", "sqrt", "fabs", "isfinite", "isnan", "isinf", "copysign", "gcd", "log2", "log10", "pow", "fmod"):
-        t[("math", n)] = getattr(math, n)
+    for n in ("floor", "ceil", "trunc", "sqrt", "fabs", "isfinite", "isnan", "isinf", "copysign", "gcd", "log2", "log10", "pow", "fmod", "isclose", "log", "exp", "hypot", "degrees", "radians", "modf", "frexp", "ldexp", "fsum", "lcm", "isqrt", "comb", "sin", "cos", "tan", "atan", "atan2"):
+        if hasattr(math, n):
+            t[("math", n)] = getattr(math, n)
     t[("collections", "OrderedDict")] = collections.OrderedDict
     for n in ("sub", "subn", "match", "fullmatch", "search", "findall", "split", "escape"):
         t[("re", n)] = getattr(_re, n)
